@@ -52,6 +52,8 @@ inductive Site where
   | cv10 | cv11 | cv12 | cv13 | cv14 | cv15 | cv16 | cv17 | cv18 | cv19
   | cv20 | cv21 | cv22 | cv23 | cv24 | cv25 | cv26 | cv27 | cv28 | cv29
   | cv30 | cv31 | cv32 | cv33 | cv34 | cv35
+  /-- debug.c: emit_waiters (0, 1) and emit_cv_state (6, 7) -/
+  | debug0 | debug1 | debug6 | debug7
   deriving DecidableEq, Repr
 
 def Site.all : List Site :=
@@ -59,7 +61,7 @@ def Site.all : List Site :=
    .cv0, .cv1, .cv2, .cv3, .cv4, .cv5, .cv6, .cv7, .cv8, .cv9,
    .cv10, .cv11, .cv12, .cv13, .cv14, .cv15, .cv16, .cv17, .cv18, .cv19,
    .cv20, .cv21, .cv22, .cv23, .cv24, .cv25, .cv26, .cv27, .cv28, .cv29,
-   .cv30, .cv31, .cv32, .cv33, .cv34, .cv35]
+   .cv30, .cv31, .cv32, .cv33, .cv34, .cv35, .debug0, .debug1, .debug6, .debug7]
 
 theorem Site.mem_all (s : Site) : s ∈ Site.all := by cases s <;> simp [Site.all]
 
@@ -106,6 +108,10 @@ def Site.name : Site → String
   | .cv33 => "cv.c/33/cv_dequeue"
   | .cv34 => "cv.c/34/cv_dequeue"
   | .cv35 => "cv.c/35/cv_dequeue"
+  | .debug0 => "debug.c/0/emit_waiters"
+  | .debug1 => "debug.c/1/emit_waiters"
+  | .debug6 => "debug.c/6/emit_cv_state"
+  | .debug7 => "debug.c/7/emit_cv_state"
 
 /-- The order each site declares (for a CAS: the order on success; on failure all three atomic.h
     flavours request relaxed).  Source lines are those of the current /repo/internal files. -/
@@ -151,6 +157,10 @@ def siteOrd : Site → VC.Ord
   | .cv33 => .rlx      -- cv.c:496  ATM_STORE (&nw->waiting, 0)
   | .cv34 => .rel      -- cv.c:508  ATM_STORE_REL (&pcv->word, old_word)
   | .cv35 => .acq      -- cv.c:514  while (ATM_LOAD_ACQ (&nw->waiting) != 0)    <- wait_n's loop (F3 repair)
+  | .debug0 => .rlx    -- debug.c:165  ATM_LOAD (&nw->waiting)        (emit_waiters)
+  | .debug1 => .rlx    -- debug.c:172  ATM_LOAD (&w->remove_count)    (emit_waiters)
+  | .debug6 => .rlx    -- debug.c:245  word = ATM_LOAD (&cv->word)
+  | .debug7 => .rel    -- debug.c:258  ATM_STORE_REL (&cv->word, word)   <- the observer's release store
 
 def ordStr : VC.Ord → String
   | .rlx => "rlx" | .acq => "acq" | .rel => "rel" | .ar => "ar"
@@ -163,6 +173,7 @@ def siteOrdTable : List (String × String) := Site.all.map (fun s => (s.name, or
 def Site.file : Site → String
   | .common0 | .common1 | .common2 | .common5 => "common.c"
   | .wait0 => "wait.c"
+  | .debug0 | .debug1 | .debug6 | .debug7 => "debug.c"
   | _ => "cv.c"
 
 /-- ordinal of the ATM_* macro in its file -/
@@ -173,6 +184,7 @@ def Site.k : Site → Nat
   | .cv15 => 15 | .cv16 => 16 | .cv17 => 17 | .cv18 => 18 | .cv19 => 19 | .cv20 => 20 | .cv21 => 21
   | .cv22 => 22 | .cv23 => 23 | .cv24 => 24 | .cv25 => 25 | .cv26 => 26 | .cv27 => 27 | .cv28 => 28
   | .cv29 => 29 | .cv30 => 30 | .cv31 => 31 | .cv32 => 32 | .cv33 => 33 | .cv34 => 34 | .cv35 => 35
+  | .debug0 => 0 | .debug1 => 1 | .debug6 => 6 | .debug7 => 7
 
 def Site.fn : Site → String
   | .common0 | .common1 | .common2 => "nsync_spin_test_and_set_"
@@ -186,12 +198,14 @@ def Site.fn : Site → String
   | .cv29 => "cv_ready_time"
   | .cv30 | .cv31 => "cv_enqueue"
   | .cv32 | .cv33 | .cv34 | .cv35 => "cv_dequeue"
+  | .debug0 | .debug1 => "emit_waiters"
+  | .debug6 | .debug7 => "emit_cv_state"
 
 /-- kind of operation: `ld`, `st`, `cas` -/
 def Site.op : Site → String
   | .common1 | .cv1 | .cv3 | .cv15 | .cv21 | .cv23 | .cv27 => "cas"
   | .common5 | .wait0 | .cv5 | .cv6 | .cv9 | .cv16 | .cv17 | .cv24 | .cv28 | .cv30 | .cv31 | .cv33
-  | .cv34 => "st"
+  | .cv34 | .debug7 => "st"
   | _ => "ld"
 
 /-- The ATM_* macro that requests order `o` for an operation of kind `op`. -/
@@ -219,7 +233,7 @@ def sitesAgree (gen : List (String × String × String × String)) : Bool :=
 def wSite : WSite → Site
   | .spin0 => .common0 | .spin2 => .common2 | .waitRel => .cv9 | .waitRel2 => .cv17
   | .sigLd => .cv19 | .sigRel => .cv24 | .bcLd => .cv25 | .bcRel => .cv28
-  | .enqRel => .cv31 | .deqRel => .cv34
+  | .enqRel => .cv31 | .deqRel => .cv34 | .dbgLd => .debug6 | .dbgRel => .debug7
 
 def rSite : RSite → Site
   | .wSt1 => .cv6 | .wRc => .cv8 | .wHead => .cv10 | .wChk => .cv11 | .wChk2 => .cv12
@@ -227,7 +241,7 @@ def rSite : RSite → Site
   | .sRcLd true => .cv20 | .sRcCas true => .cv21 | .sRcLd false => .cv22 | .sRcCas false => .cv23
   | .bRcLd => .cv26 | .bRcCas => .cv27
   | .wake => .cv5 | .ready => .cv29 | .enqSt => .cv30 | .deqLd => .cv32 | .deqSt => .cv33
-  | .deqSpin => .cv35
+  | .deqSpin => .cv35 | .dbgW => .debug0 | .dbgRc => .debug1
 
 def mSite : MSite → Site
   | .wMode => .cv7 | .wwLd => .cv0 | .wwCas => .cv1 | .wwRelLd => .cv2 | .wwRelCas => .cv3
@@ -235,7 +249,7 @@ def mSite : MSite → Site
 
 /-- The field of the record a record site works on. -/
 def rFld : RSite → Fld
-  | .wRc | .wCmp | .wRmLd | .wRmCas | .sRcLd _ | .sRcCas _ | .bRcLd | .bRcCas => .rc
+  | .wRc | .wCmp | .wRmLd | .wRmCas | .sRcLd _ | .sRcCas _ | .bRcLd | .bRcCas | .dbgRc => .rc
   | _ => .waiting
 
 /-! ### projection to the clock machine -/
